@@ -3,6 +3,7 @@ package zzverif
 import (
 	"encoding/hex"
 	"fmt"
+	"io"
 	"net"
 	"time"
 )
@@ -73,8 +74,9 @@ func serveTCP(l net.Listener, beh int, hdr, reply []byte) {
 		go func(c net.Conn) {
 			defer c.Close()
 			c.SetDeadline(time.Now().Add(3 * time.Second))
+			// a KDC answers only a complete request: 4-byte length, then exactly that many bytes
 			lh := make([]byte, 4)
-			if _, err := c.Read(lh); err != nil {
+			if _, err := io.ReadFull(c, lh); err != nil {
 				return
 			}
 			n := int(lh[0])<<24 | int(lh[1])<<16 | int(lh[2])<<8 | int(lh[3])
@@ -102,9 +104,12 @@ func serveTCP(l net.Listener, beh int, hdr, reply []byte) {
 func serveUDP(c *net.UDPConn, beh int, reply []byte) {
 	buf := make([]byte, 65536)
 	for {
-		_, from, err := c.ReadFromUDP(buf)
+		n, from, err := c.ReadFromUDP(buf)
 		if err != nil {
 			return
+		}
+		if n == 0 {
+			continue // an empty datagram is not a request
 		}
 		if beh == 0 {
 			c.WriteToUDP(reply, from)
